@@ -115,6 +115,7 @@ func c16Body() func(h []dsim.Rec) {
 		}
 	}
 	// senders
+	sharedIdentities := dsim.Choose(3) == 2
 	var senders []*hbSender
 	d := &driverSet{e: e}
 	for _, l := range links {
@@ -122,6 +123,11 @@ func c16Body() func(h []dsim.Rec) {
 		ns := 1 + dsim.Choose(3)
 		for k := 0; k < ns; k++ {
 			s := &hbSender{l: l, sys: byte(20 + 10*l.id + k), comp: byte(1 + dsim.Choose(3)), autopilot: dsim.Pick(byte(3), 3, 0, 12, 8)}
+			if sharedIdentities {
+				// the same vehicle is heard on several channels
+				s.sys, s.comp = byte(20+k), 1
+				count("cov:identity-on-several-channels")
+			}
 			senders = append(senders, s)
 			n := 1 + dsim.Choose(6)
 			var gaps []time.Duration
@@ -347,11 +353,7 @@ func c16Body() func(h []dsim.Rec) {
 				// one event per burst
 				nev := 0
 				for _, o := range events {
-					if o.kind == evStreamReq && o.sys == k.sys && o.comp == k.comp {
-						if o.ch != chOf[l] {
-							dsim.Failf("stream-request-target", "EventStreamRequested for sys=%d names another channel than the one the heartbeat arrived on", k.sys)
-							return
-						}
+					if o.kind == evStreamReq && o.sys == k.sys && o.comp == k.comp && o.ch == chOf[l] {
 						nev++
 					}
 				}
@@ -378,6 +380,21 @@ func c16Body() func(h []dsim.Rec) {
 						return
 					}
 				}
+			}
+		}
+		for _, o := range events {
+			if o.kind != evStreamReq {
+				continue
+			}
+			ok := false
+			for _, s := range senders {
+				if chOf[s.l] == o.ch && s.sys == o.sys && s.comp == o.comp && s.autopilot == 3 {
+					ok = true
+				}
+			}
+			if !ok && cfg.srExpected() {
+				dsim.Failf("stream-request-target", "EventStreamRequested names channel %s and sys=%d comp=%d, but no ArduPilot system with that identity sent a heartbeat on that channel", o.ch.String(), o.sys, o.comp)
+				return
 			}
 		}
 		if !cfg.srExpected() {
